@@ -56,6 +56,21 @@ Theorem C20_addsub_table : length addsub_cells = 500%nat /\
 Proof. split; vm_compute; reflexivity. Qed.
 Print Assumptions C20_addsub_table.
 
+(* the in-place forms x += y, x -= y have the table of + and - (before /repo 5371e50 `+=` was the inherited list
+   concatenation: any same-class operand was accepted and the lengths added up) *)
+Theorem C20_inplace_same_table : forall l nl r nr,
+  inplace_model l nl r nr = addsub_model l nl r nr /\
+  (inplace_model l nl r nr = Value l nl <-> r = SV l /\ nl = nr) /\
+  agrees (inplace_model l nl r nr) (addsub_expected l nl r nr) = true.
+Proof.
+  intros l nl r nr. split; [reflexivity|]. split.
+  - unfold inplace_model. rewrite (C20_addsub_value_iff l nl r nr l nl). tauto.
+  - unfold inplace_model, addsub_model, addsub_expected, construct, agrees. destruct r as [c|]; [|reflexivity].
+    destruct (svc_eqb l c) eqn:E; [|reflexivity]. destruct (Nat.eqb nl nr) eqn:L; simpl; [|reflexivity].
+    replace (svc_eqb l l) with true by (destruct l; reflexivity). rewrite Nat.eqb_refl. reflexivity.
+Qed.
+Print Assumptions C20_inplace_same_table.
+
 Theorem C20_neg_copy_keep_class : forall l n, neg_model l n = Value l n /\ copy_model l n = Value l n.
 Proof. intros l n. split; reflexivity. Qed.
 Print Assumptions C20_neg_copy_keep_class.
